@@ -88,15 +88,14 @@ class DhtWorld:
         return data
 
     def _on_deliver(self, src, dst, data, ep):
+        items = None
         if self.corrupt is not None:
-            out = self.corrupt(src, dst, data, ep)
-            if out is not None:
-                return True
+            items = self.corrupt(src, dst, data, ep)
         if dst in self.index_of and self._looks_like_response(data):
             # "replied" = a datagram that reads as a response (however odd its payload) reached dst from
             # that host; the source port is not part of a contact's identity (NAT rebinding)
             self.replied_from.setdefault(dst, set()).add(src[0])
-        return False
+        return items
 
     @staticmethod
     def _looks_like_response(data):
@@ -126,7 +125,7 @@ class DhtWorld:
             got = decode_datagram(data)
         except Exception as e:  # noqa
             run.violation('C17.own_datagram_undecodable', f'product cannot decode a datagram a real node sent: '
-                          f'{type(e).__name__}: {e}: {data[:200]!r}', exc=type(e).__name__, kind=msg['kind'])
+                          f'{type(e).__name__}: {e}: {data[:200]!r}', exc=type(e).__name__, msg=msg['kind'])
             return
         ok = got.rpc_id == msg['rpc_id'] and got.node_id == msg['node_id']
         if msg['kind'] == 'request':
@@ -150,7 +149,7 @@ class DhtWorld:
                 and got.response.encode() == msg['response']
         if not ok:
             run.violation('C17.decode_mismatch', f'product and reference read a {msg["kind"]} differently: {data[:200]!r}',
-                          kind=msg['kind'])
+                          msg=msg['kind'])
             return
         try:
             again = bref.encode(bref.decode(data))
@@ -158,7 +157,7 @@ class DhtWorld:
             again = None
         if again != data:
             run.violation('C17.reencode_mismatch', f're-encoding the reference structure differs: {data[:200]!r}',
-                          kind=msg['kind'])
+                          msg=msg['kind'])
 
     # ---- hostile replies ----------------------------------------------------------------------------
     def _hostile_rewrite(self, src, dst, data, msg, req):
